@@ -22,6 +22,11 @@ def msg_types(dbits):
   if dbits not in _TYPES: _TYPES[dbits] = mk_mem_msg(8, 32, dbits)
   return _TYPES[dbits]
 
+def port_widths(c):
+  """data width in bits of every port: c['widths'] (the ports of one memory may carry different message types), else
+  c['dbits'] on every port"""
+  return list(c['widths']) if c.get('widths') else [c['dbits']] * c['nports']
+
 def mk_req(dbits, r):
   """r = [type, opaque, addr, len, data]"""
   Req, _ = msg_types(dbits)
@@ -36,9 +41,9 @@ def resp_tuple(m):
 
 class C18HarnessCL(Component):
   def construct(s, nports, types, src_msgs, nresp, stall_prob, latency, src_init, src_intv, sink_init, sink_intv, cmp_fns):
-    s.srcs = [TestSrcCL(types[0], src_msgs[i], src_init[i], src_intv[i]) for i in range(nports)]
-    s.mem = MagicMemoryCL(nports, [types] * nports, stall_prob, latency, 1 << 16)
-    s.sinks = [TestSinkCL(types[1], [None] * nresp[i], sink_init[i], sink_intv[i], None, cmp_fns[i]) for i in range(nports)]
+    s.srcs = [TestSrcCL(types[i][0], src_msgs[i], src_init[i], src_intv[i]) for i in range(nports)]
+    s.mem = MagicMemoryCL(nports, list(types), stall_prob, latency, 1 << 16)
+    s.sinks = [TestSinkCL(types[i][1], [None] * nresp[i], sink_init[i], sink_intv[i], None, cmp_fns[i]) for i in range(nports)]
     for i in range(nports):
       connect(s.srcs[i].send, s.mem.ifc[i].req)
       connect(s.mem.ifc[i].resp, s.sinks[i].recv)
@@ -51,9 +56,9 @@ class C18HarnessCL(Component):
 
 class C18HarnessRTL(Component):
   def construct(s, nports, types, src_msgs, nresp, stall_prob, extra_latency, src_init, src_intv, sink_init, sink_intv, cmp_fns):
-    s.srcs = [SourceRTL(types[0], src_msgs[i], src_init[i], src_intv[i]) for i in range(nports)]
-    s.mem = MagicMemoryRTL(nports, [types] * nports, stall_prob, extra_latency, 1 << 16)
-    s.sinks = [SinkRTL(types[1], [None] * nresp[i], sink_init[i], sink_intv[i], None, cmp_fns[i]) for i in range(nports)]
+    s.srcs = [SourceRTL(types[i][0], src_msgs[i], src_init[i], src_intv[i]) for i in range(nports)]
+    s.mem = MagicMemoryRTL(nports, list(types), stall_prob, extra_latency, 1 << 16)
+    s.sinks = [SinkRTL(types[i][1], [None] * nresp[i], sink_init[i], sink_intv[i], None, cmp_fns[i]) for i in range(nports)]
     for i in range(nports):
       s.srcs[i].send //= s.mem.ifc[i].req
       s.mem.ifc[i].resp //= s.sinks[i].recv
@@ -118,13 +123,13 @@ class C18HarnessAlias(Component):
     from pymtl3.stdlib.test_utils.test_srcs import TestSrcRTL
     def mk(i):
       if drivers[i] == 'rtlsrc':
-        return TestSrcRTL(types[0], [types[0](*r) for r in reqs[i]], src_init[i], src_intv[i])
+        return TestSrcRTL(types[i][0], [types[i][0](*r) for r in reqs[i]], src_init[i], src_intv[i])
       if drivers[i] == 'cl':
-        return TestSrcCL(types[0], [types[0](*r) for r in reqs[i]], src_init[i], src_intv[i])
-      return C18ReuseSrcCL(types[0], reqs[i], src_init[i], src_intv[i], drivers[i])
+        return TestSrcCL(types[i][0], [types[i][0](*r) for r in reqs[i]], src_init[i], src_intv[i])
+      return C18ReuseSrcCL(types[i][0], reqs[i], src_init[i], src_intv[i], drivers[i])
     s.srcs = [mk(i) for i in range(nports)]
-    s.mem = MagicMemoryCL(nports, [types] * nports, stall_prob, latency, 1 << 16)
-    s.sinks = [TestSinkCL(types[1], [None] * len(reqs[i]), sink_init[i], sink_intv[i], None, cmp_fns[i]) for i in range(nports)]
+    s.mem = MagicMemoryCL(nports, list(types), stall_prob, latency, 1 << 16)
+    s.sinks = [TestSinkCL(types[i][1], [None] * len(reqs[i]), sink_init[i], sink_intv[i], None, cmp_fns[i]) for i in range(nports)]
     for i in range(nports):
       connect(s.srcs[i].send, s.mem.ifc[i].req)       # for 'rtlsrc': RTL master -> CL memory, adapter inserted by connect
       connect(s.mem.ifc[i].resp, s.sinks[i].recv)
@@ -180,8 +185,9 @@ def run_system(kind, cfg, image, dump, max_cycles=3000):
   """kind 'cl' | 'rtl'. cfg: dict(nports, dbits, reqs (per port list of 5-lists), stall_prob, latency,
   src_init, src_intv, sink_init, sink_intv). image: (base, bytes) written with write_mem.
   Returns a Run (cycle numbers are `sim_cycle_count()` values; the four evaluations inside sim_reset are cycles 0..3)."""
-  n, dbits = cfg['nports'], cfg['dbits']
-  types = msg_types(dbits)
+  n = cfg['nports']
+  widths = port_widths(cfg)
+  types = [msg_types(w) for w in widths]
   R = Run()
   R.deliv = [[] for _ in range(n)]
   holder = {}
@@ -191,7 +197,7 @@ def run_system(kind, cfg, image, dump, max_cycles=3000):
       R.deliv[i].append([clock(), resp_tuple(msg)])
       return True
     return f
-  msgs = [[mk_req(dbits, r) for r in cfg['reqs'][i]] for i in range(n)]
+  msgs = [[mk_req(widths[i], r) for r in cfg['reqs'][i]] for i in range(n)]
   H = C18HarnessCL if kind == 'cl' else C18HarnessRTL
   th = H(n, types, msgs, [len(m) for m in msgs], cfg['stall_prob'], cfg['latency'],
          cfg['src_init'], cfg['src_intv'], cfg['sink_init'], cfg['sink_intv'], [mk_cmp(i) for i in range(n)])
@@ -287,8 +293,9 @@ def run_fl(dbits, image, dump, reqs):
 def run_alias(cfg, image, dump, max_cycles=3000):
   """MagicMemoryCL with per-port drivers cfg['drivers'] (see C18HarnessAlias). Records the processing order (requests as
   the memory saw them), the responses and the final image; the requests as SENT are cfg['reqs']."""
-  n, dbits = cfg['nports'], cfg['dbits']
-  types = msg_types(dbits)
+  n = cfg['nports']
+  widths = port_widths(cfg)
+  types = [msg_types(w) for w in widths]
   R = Run()
   R.deliv = [[] for _ in range(n)]
   holder = {}
